@@ -39,12 +39,19 @@ def planck_radiance_si(wave_m, T):
     return (2 * np.longdouble(H) * np.longdouble(C) ** 2 / wave_m ** 5 / np.expm1(x)).astype(float)
 
 
+NOMINAL = 2e-15     # two numbers closer than this (relative) are the same wavelength written in two units
+
+
 def interp_linear(x, xs, ys, fill):
     """Piecewise-linear interpolation with `fill` outside [xs[0], xs[-1]] (own implementation)."""
     x = np.asarray(x, float)
     xs = np.asarray(xs, float)
     ys = np.asarray(ys, float)
     out = np.full(x.shape, float(fill))
+    # a wavelength that agrees with the first / last sample to a few ulp IS that sample (unit conversions are exact only to
+    # rounding): it belongs to the range
+    x = np.where(np.abs(x - xs[0]) <= NOMINAL * abs(xs[0]), xs[0], x)
+    x = np.where(np.abs(x - xs[-1]) <= NOMINAL * abs(xs[-1]), xs[-1], x)
     inside = (x >= xs[0]) & (x <= xs[-1])
     k = np.clip(np.searchsorted(xs, x, side='right') - 1, 0, len(xs) - 2) if len(xs) > 1 else np.zeros(x.shape, int)
     if len(xs) > 1:
